@@ -70,6 +70,8 @@ GhostInit ==
     passFresh|-> FALSE,        \* the running pass began after the last stimulus
     passClean|-> FALSE,
     owner    |-> <<>>,         \* pid -> lower-cased watcher name ("" for a worker's child)
+    bornT    |-> <<>>,         \* pid -> time of its spawn line (ms), -1 unknown
+    passT0   |-> 0,            \* time at which the running periodic pass began
     released |-> {},           \* pids released by rm nostop
     spawned  |-> {}, reaped |-> {}, killed |-> {},     \* pids with a spawn / reap / kill event
     envDied  |-> {},           \* pids that died by themselves / from outside while their watcher was active
@@ -210,6 +212,8 @@ Upd(g, o, ln, o2) ==
       \* --- ownership, events
       owner1 == LET s == Grow(g.owner, n2, "") IN
                 IF ln.k = "spawn" THEN [s EXCEPT ![ln.p] = ln.x] ELSE s
+      bornT1 == LET s == Grow(g.bornT, n2, -1) IN
+                IF ln.k = "spawn" THEN [s EXCEPT ![ln.p] = ln.t] ELSE s
       isEv   == ln.k = "ev"
       \* --- deaths
       diedAt1 == LET s == Grow(g.diedAt, n2, -1) IN
@@ -270,6 +274,8 @@ Upd(g, o, ln, o2) ==
                !.passClean = IF PassStart(o, o2) THEN CleanForPass(o) /\ ~stim
                              ELSE IF stim \/ (ln.k = "req" /\ ln.q.cmd \in {"kill", "signal"}) THEN FALSE ELSE @,
                !.owner = owner1,
+               !.bornT = bornT1,
+               !.passT0 = IF PassStart(o, o2) THEN ln.t ELSE @,
                !.released = IF rel /\ g.op.slot = "arbiter_rm_watcher" /\ g.op.nostop
                             THEN @ \cup { p \in 1..NK(o2) : OwnerOf(g, p) = g.op.lname /\ KSt(o2, p) # "reaped" }
                             ELSE @,
@@ -375,6 +381,15 @@ C01_set(g, ln, o2) ==
       \A i \in WIdx(o2) : (o2.w[i].ln = g.ctx.lname /\ o2.w[i].n \in SeqToSet(o2.wl)) =>
           o2.w[i].np = (IF g.ctx.setnp < 0 THEN 0 ELSE g.ctx.setnp)
 C01_fixpoint(g, ln) == ~(g.inPass /\ g.passClean /\ ln.k \in (SigKinds \cup {"spawn"}))
+\* max_age: a periodic check that finds the count right terminates a worker for its age only when it HAS that age
+\* (max_age plus a non-negative random variance); the signal that begins a termination inside a pass, for a worker
+\* that is not surplus and was there before the pass began, is such an expiry
+C01_young(g, o, ln) ==
+   (ln.k = "signal" /\ g.inPass /\ ~g.ctx.on /\ ln.r = "ok") =>
+      \A i \in WIdx(o) : LET wr == o.w[i] IN
+         (ln.p \in Pids(wr) /\ wr.mage > 0 /\ wr.st = "active" /\ Len(wr.pr) <= wr.np /\ ln.p \notin Stopping(wr)
+            /\ KSt(o, ln.p) = "run" /\ ln.p \in 1..Len(g.bornT) /\ g.bornT[ln.p] >= 0 /\ g.bornT[ln.p] < g.passT0)
+           => ln.t - g.bornT[ln.p] + 1 >= wr.mage * 100
 C01_fresh(g, o, o2) ==
    (o.slot # "" /\ o2.slot # o.slot /\ g.op.slot \in {"watcher_restart", "watcher_reload", "arbiter_restart",
                                                  "arbiter_reload"}
@@ -733,7 +748,7 @@ C08_done(g, o, ln) ==
 Clauses(g, o, ln, o2, g2) ==
   [ C01_range |-> C01_range(o2), C01_converge |-> C01_converge(g2, o2), C01_fixpoint |-> C01_fixpoint(g, ln),
     C01_period |-> C01_period(g, o2, ln), C01_set |-> C01_set(g, ln, o2),
-    C01_fresh |-> C01_fresh(g, o, o2),
+    C01_fresh |-> C01_fresh(g, o, o2), C01_young |-> C01_young(g, o, ln),
     C02_complete |-> C02_complete(g2, o, o2), C02_opdone |-> C02_opdone(g, o, o2),
     C02_stays |-> C02_stays(g2, o, ln, o2),
     C03_first |-> C03_first(g, o, ln), C03_notearly |-> C03_notearly(g, ln), C03_notdead |-> C03_notdead(g, ln),
